@@ -548,6 +548,61 @@ pub fn run(tier: Tier) -> i32 {
         }
         t.count("requirement_lists_decided_alike_by_five_containers");
     }
+    // (i⁗‴) the same body bytes handed over in buffers of different ownership: a `Bytes` nobody else holds, a `Vec<u8>`, a
+    // `Bytes` the caller keeps a clone of, a window into a larger buffer. On the corpus' own bodies and on form bodies in
+    // charsets other than UTF-8 with bytes ≥ 0x80 (where a decoder shortcut would show).
+    {
+        let mut own: Vec<Case> = c.iter().filter(|k| !k.wire.body.is_empty()).take(tier.n(600, 10_000) as usize).cloned().collect();
+        let labels: [&[u8]; 7] = [b"iso-8859-1", b"windows-1252", b"latin1", b"shift_jis", b"utf-16le", b"koi8-r", b"big5"];
+        for j in 0..tier.n(200, 4000) {
+            let mut fr = Rng::keyed(seed, "C18", "buffer-forms", 0, j);
+            let mut cfg = crate::gen::gen_cfg(&mut fr);
+            cfg.fold = true;
+            let mut l = crate::gen::gen_logical(&mut fr, &cfg, &crate::gen::GenOpts::default());
+            l.method = "POST".into();
+            l.form_pairs = None;
+            let mut ct = b"application/x-www-form-urlencoded; charset=".to_vec();
+            ct.extend_from_slice(fr.pick_bytes(&labels));
+            l.content_type = Some(ct);
+            let present = crate::gen::present_header_names(&l);
+            l.signed.retain(|s| present.contains(s));
+            let body: Vec<u8> = match fr.below(4) {
+                0 => b"Name=caf\xe9&x=1".to_vec(),
+                1 => b"n=\x82\xa0\x82\xa2&m=%82%a0".to_vec(),
+                2 => b"a\x00=\x001\x00&\x00b\x00=\x00\xe9\x00".to_vec(),
+                _ => {
+                    let mut b = b"k=".to_vec();
+                    b.extend((0..1 + fr.usize_below(12)).map(|_| 0x80 + fr.below(0x80) as u8));
+                    b
+                }
+            };
+            let ov = crate::gen::Overrides {
+                body_override: Some(body),
+                ..Default::default()
+            };
+            let mut sr = Rng::keyed(seed, "C18", "buffer-forms-spell", 0, j);
+            let mut sp = crate::gen::Speller {
+                r: &mut sr,
+                level: 0,
+            };
+            let (case, _) = crate::gen::make_case(&l, &cfg, &mut sp, &ov, 0);
+            own.push(case);
+        }
+        for case in &own {
+            let mut ds: Vec<(u8, String)> = Vec::new();
+            for kind in [0u8, 1, 3, 4] {
+                let mut c2 = case.clone();
+                c2.wire.body_kind = kind;
+                t.eval();
+                ds.push((kind, digest_of(&c2)));
+            }
+            if let Some((k, d)) = ds.iter().find(|(_, d)| *d != ds[0].1) {
+                viol(&mut t, "buffer-ownership", format!("the same body in a buffer of kind {} (0 unique Bytes, 1 Vec, 3 Bytes with a live clone, 4 window into a larger buffer): {} — kind 0: {}", k, crate::run::truncate(d, 300), crate::run::truncate(&ds[0].1, 300)), Some(case));
+                break;
+            }
+            t.count("bodies_validated_alike_in_four_kinds_of_buffer");
+        }
+    }
     // (ii) threads on a small hot set (collisions on the same regex pools) and on the full corpus
     let hot: Vec<Case> = c.iter().take(24).cloned().collect();
     let hot_ref: Vec<u64> = reference.iter().take(24).copied().collect();
@@ -710,6 +765,7 @@ pub fn run(tier: Tier) -> i32 {
     ctx.gate("validations that reached a long-lived provider (spare readiness 1–3, runs of 40), same outcome as alone", t.get("validations_served_by_a_long_lived_provider_agree"), tier.n(1500, 30_000));
     ctx.gate("requests on a window bound accepted alike with an immediate provider and one that takes 1.1 s", t.get("window_edge_requests_accepted_with_slow_and_fast_provider"), tier.n(12, 48));
     ctx.gate("cases whose requirement lists were held by five containers / container histories, same outcome", t.get("requirement_lists_decided_alike_by_five_containers"), tier.n(1000, 20_000));
+    ctx.gate("request bodies (incl. non-UTF-8 form bodies) validated alike whoever else holds the buffer", t.get("bodies_validated_alike_in_four_kinds_of_buffer"), tier.n(600, 10_000));
     ctx.gate("log records produced during the pass with a trace-level logger (outcomes unchanged)", t.get("log_records_during_logging_pass"), tier.n(2000, 20_000));
     ctx.gate("cold-start processes run", t.get("cold_start_processes"), n_cold);
     ctx.gate("cold-start processes whose first validations all took the same rarely travelled path (3 classes)", t.get("cold_start_same_class_processes"), 3 * tier.n(2, 12));
@@ -721,7 +777,7 @@ pub fn run(tier: Tier) -> i32 {
     }
     let rep = Report {
         level: "exploration",
-        rule: "Outcome comparator: a mixed corpus (accepted, 1–4 defects, hostile noise; both carriers, all options; services with signed-header requirements in every container; several unsigned headers under one required prefix; a distinctive identity and session per case; sibling cases that put the *same* wire request under another option set, clock or provider answer) is validated single-threaded to obtain reference digests (Ok/error kind, code, status + message + returned parts/body/principal/session + provider event log; the one thing left out is *which* of several unsigned prefixed headers a refusal message names); the same cases are then re-validated (i) twice in shuffled order, (i') with a trace-level logger installed and capturing, (i'') three at a time, each suspended at its key provider and polled in turn on one thread or finished by another thread, (i‴) in runs of 40 served by one long-lived provider object that arrives with 1–3 slots of readiness left over (a verifier that skipped the poll_ready handshake would be served first and refused later), (i⁗) for requests whose timestamp sits on a bound of the window, with a provider that takes 1.1 s of real time to answer, (i⁗′) with the same requirement lists held by five kinds of container, one of them used for a validation and then edited down with remove_*, (ii) from 2/4/8/16 threads released by a barrier, each in its own permutation, on a 24-case hot set (many rounds) and on the full corpus, (iii) in fresh processes whose *first* validations happen on 16 threads at once (lazy statics and regex pools initialised under contention; also with every thread's first validation of one class — unparsable timestamp, runs of slashes, unknown charset — so that the statics used only there are contended too), (iv) in fresh processes sequentially (different HashMap seeds), meeting the cases in forward, reversed or shuffled order, every other one with a logger at Trace; thorough adds (v) the thread workload under ThreadSanitizer (-Zbuild-std) and under Miri with several scheduler seeds. Interleaving evidence is measured: global start/end sequence numbers give max in flight and overlapping first-call pairs. Distinct = distinct (case, mode) comparisons that agreed.".into(),
+        rule: "Outcome comparator: a mixed corpus (accepted, 1–4 defects, hostile noise; both carriers, all options; services with signed-header requirements in every container; several unsigned headers under one required prefix; a distinctive identity and session per case; sibling cases that put the *same* wire request under another option set, clock or provider answer) is validated single-threaded to obtain reference digests (Ok/error kind, code, status + message + returned parts/body/principal/session + provider event log; the one thing left out is *which* of several unsigned prefixed headers a refusal message names); the same cases are then re-validated (i) twice in shuffled order, (i') with a trace-level logger installed and capturing, (i'') three at a time, each suspended at its key provider and polled in turn on one thread or finished by another thread, (i‴) in runs of 40 served by one long-lived provider object that arrives with 1–3 slots of readiness left over (a verifier that skipped the poll_ready handshake would be served first and refused later), (i⁗) for requests whose timestamp sits on a bound of the window, with a provider that takes 1.1 s of real time to answer, (i⁗′) with the same requirement lists held by five kinds of container, one of them used for a validation and then edited down with remove_*, (i⁗‴) with the body in buffers of four kinds of ownership (unique `Bytes`, `Vec<u8>`, a `Bytes` the caller keeps a clone of, a window into a larger buffer), also for form bodies in other charsets with bytes ≥ 0x80, (ii) from 2/4/8/16 threads released by a barrier, each in its own permutation, on a 24-case hot set (many rounds) and on the full corpus, (iii) in fresh processes whose *first* validations happen on 16 threads at once (lazy statics and regex pools initialised under contention; also with every thread's first validation of one class — unparsable timestamp, runs of slashes, unknown charset — so that the statics used only there are contended too), (iv) in fresh processes sequentially (different HashMap seeds), meeting the cases in forward, reversed or shuffled order, every other one with a logger at Trace; thorough adds (v) the thread workload under ThreadSanitizer (-Zbuild-std) and under Miri with several scheduler seeds. Interleaving evidence is measured: global start/end sequence numbers give max in flight and overlapping first-call pairs. Distinct = distinct (case, mode) comparisons that agreed.".into(),
         assumptions: vec!["interleavings are sampled, not enumerated; no delay can be injected inside lazy_static/regex without patching dependencies".into()],
         extra: J::obj().set("calibrated_vectors", J::i(pre.unwrap_or(0) as i64)).set("sanitizers", san),
     };
